@@ -1,8 +1,8 @@
 SPECIFICATION Spec
-CONSTANT CN = {0, 1, 2}
-CONSTANT FN = {0, 1, 2, 3, 4}
-CONSTANT PN = {0, 1, 2, 3}
-CONSTANT LENS = {0, 11, 12, 36}
+CONSTANT CN = {0, 1, 2, 15}
+CONSTANT FN = {0, 1, 2, 3, 4, 15}
+CONSTANT PN = {0, 1, 2, 3, 15}
+CONSTANT LENS = {0, 11, 12, 19, 35, 36}
 VIEW View
 INVARIANT DeliveredOK
 INVARIANT ClosedOK
